@@ -1,4 +1,8 @@
 pub mod c08;
 pub mod c09;
 pub mod c01;
+pub mod c10;
+pub mod c12;
+#[cfg(feature = "prog")]
+pub mod p01;
 pub mod generated;
